@@ -108,7 +108,7 @@ package jsonpath
 
 // State axioms about package globals (never written after package initialisation; every store
 // needs ownership, and read-only locations are never owned).
-//@ axiom globals: len(emptyList) == 1 && emptyList[0] == emptyEntity && RO(emptyList) && len(fullList) == 1 && fullList[0] == true && RO(fullList) && arr(emptyList) != arr(fullList) && arr(emptyList) != 0 && arr(fullList) != 0 && off(emptyList) == 0 && off(fullList) == 0
+//@ axiom globals: len(emptyList) == 1 && emptyList[0] == emptyEntity && RO(emptyList) && len(fullList) == 1 && fullList[0] == true && RO(fullList) && arr(emptyList) != arr(fullList) && arr(emptyList) != 0 && arr(fullList) != 0 && off(emptyList) == 0 && off(fullList) == 0 && wf(emptyList) && wf(fullList)
 //@ axiom pools: resultSyncPool != nil && sortSliceSyncPool != nil && resultSyncPool != sortSliceSyncPool
 
 // extVal: a value whose backing array (if it is a list) is outside library ownership.  Read-only
@@ -127,11 +127,13 @@ package jsonpath
 //@ smt (declare-fun WFcmp (Val) Bool)
 //@ smt (declare-fun WFval (Val) Bool)
 //@ smt (declare-fun vkind (Val) Int)
+//@ smt (declare-fun vrank (Val) Int)
 //@ smt (declare-fun paramSingleQ (Val) Bool)
 
-//@ spec rtOK(r *errorBasicRuntime) bool = r != nil && r.node != nil
+//@ spec rtOK(r *errorBasicRuntime) bool = r != nil && wf(r) && r.node != nil
 //@ spec errRT(b *syntaxBasicNode) bool = rtOK(b.errorRuntime)
-//@ spec WFbasic(b *syntaxBasicNode) bool = b != nil && hgt(b) >= 0 && (b.next != nil ==> WFnode(b.next) && height(b.next) < hgt(b))
+//@ spec singleNext(b *syntaxBasicNode) bool = b.next == nil || chainSingle(b.next)
+//@ spec WFbasic(b *syntaxBasicNode) bool = b != nil && RO(b) && (b.errorRuntime != nil ==> RO(b.errorRuntime)) && hgt(b) >= 0 && (b.next != nil ==> WFnode(b.next) && height(b.next) < hgt(b))
 //@ spec errOK(e errorRuntime) bool = (isType(e, ErrorMemberNotExist) && rtOK(asType(e, ErrorMemberNotExist).errorBasicRuntime)) || (isType(e, ErrorTypeUnmatched) && rtOK(asType(e, ErrorTypeUnmatched).errorBasicRuntime)) || (isType(e, ErrorFunctionFailed) && rtOK(asType(e, ErrorFunctionFailed).errorBasicRuntime))
 //@ spec errNode(e errorRuntime) *syntaxBasicNode = isType(e, ErrorMemberNotExist) ? asType(e, ErrorMemberNotExist).errorBasicRuntime.node : (isType(e, ErrorTypeUnmatched) ? asType(e, ErrorTypeUnmatched).errorBasicRuntime.node : asType(e, ErrorFunctionFailed).errorBasicRuntime.node)
 //@ spec ownsBuf(c *bufferContainer) bool = c != nil && held(c) && mine(c) && wf(c.result) && off(c.result) == 0 && (arr(c.result) == 0 || (mine(c.result) && !escaped(c.result)))
@@ -142,16 +144,16 @@ package jsonpath
 // WF of the syntax tree: WFnode(v) ==> WFnodeDef(v), unfolded once per method for its receiver
 // (clause `unfold`), never by a quantified axiom (that would be a matching loop along `next`).
 //@ spec WFunionAt(u *syntaxUnionQualifier) bool = WFbasic(u.syntaxBasicNode) && errRT(u.syntaxBasicNode) && wf(u.subscripts) && (arr(u.subscripts) == 0 || RO(u.subscripts)) && (forall k {elemAt(u.subscripts, k)} :: off(u.subscripts) <= k && k < off(u.subscripts) + len(u.subscripts) ==> elemAt(u.subscripts, k) != nil && WFsub(elemAt(u.subscripts, k)))
-//@ spec WFrootDef(n *syntaxRootIdentifier) bool = n != nil && height(n) == hgt(n.syntaxBasicNode) && WFbasic(n.syntaxBasicNode)
-//@ spec WFcurrentDef(n *syntaxCurrentRootIdentifier) bool = n != nil && height(n) == hgt(n.syntaxBasicNode) && WFbasic(n.syntaxBasicNode)
-//@ spec WFsingleDef(n *syntaxChildSingleIdentifier) bool = n != nil && height(n) == hgt(n.syntaxBasicNode) && WFbasic(n.syntaxBasicNode) && errRT(n.syntaxBasicNode)
-//@ spec WFwildcardDef(n *syntaxChildWildcardIdentifier) bool = n != nil && height(n) == hgt(n.syntaxBasicNode) && WFbasic(n.syntaxBasicNode) && errRT(n.syntaxBasicNode)
-//@ spec WFunionDef(n *syntaxUnionQualifier) bool = n != nil && height(n) == hgt(n.syntaxBasicNode) && WFunionAt(n)
-//@ spec WFmultiDef(n *syntaxChildMultiIdentifier) bool = n != nil && height(n) == hgt(n.syntaxBasicNode) && WFbasic(n.syntaxBasicNode) && errRT(n.syntaxBasicNode) && wf(n.identifiers) && (arr(n.identifiers) == 0 || RO(n.identifiers)) && (forall k {elemAt(n.identifiers, k)} :: off(n.identifiers) <= k && k < off(n.identifiers) + len(n.identifiers) ==> elemAt(n.identifiers, k) != nil && WFnode(elemAt(n.identifiers, k)) && height(elemAt(n.identifiers, k)) < height(n) && (isType(elemAt(n.identifiers, k), *syntaxChildSingleIdentifier) ==> asType(elemAt(n.identifiers, k), *syntaxChildSingleIdentifier) != nil)) && (n.isAllWildcard ==> WFunionAt(n.unionQualifier) && WFnode(n.unionQualifier) && height(n.unionQualifier) < height(n))
-//@ spec WFrecursiveDef(n *syntaxRecursiveChildIdentifier) bool = n != nil && height(n) == hgt(n.syntaxBasicNode) && WFbasic(n.syntaxBasicNode) && errRT(n.syntaxBasicNode) && n.syntaxBasicNode.next != nil
-//@ spec WFfilterDef(n *syntaxFilterQualifier) bool = n != nil && height(n) == hgt(n.syntaxBasicNode) && WFbasic(n.syntaxBasicNode) && errRT(n.syntaxBasicNode) && n.query != nil && WFquery(n.query) && 0 <= qheight(n.query) && qheight(n.query) < height(n)
-//@ spec WFffuncDef(n *syntaxFilterFunction) bool = n != nil && height(n) == hgt(n.syntaxBasicNode) && WFbasic(n.syntaxBasicNode) && errRT(n.syntaxBasicNode) && n.function != nil
-//@ spec WFafuncDef(n *syntaxAggregateFunction) bool = n != nil && height(n) == hgt(n.syntaxBasicNode) && WFbasic(n.syntaxBasicNode) && errRT(n.syntaxBasicNode) && n.function != nil && n.param != nil && WFnode(n.param) && height(n.param) < height(n)
+//@ spec WFrootDef(n *syntaxRootIdentifier) bool = n != nil && height(n) == hgt(n.syntaxBasicNode) && WFbasic(n.syntaxBasicNode) && (chainSingle(n) ==> singleNext(n.syntaxBasicNode))
+//@ spec WFcurrentDef(n *syntaxCurrentRootIdentifier) bool = n != nil && height(n) == hgt(n.syntaxBasicNode) && WFbasic(n.syntaxBasicNode) && (chainSingle(n) ==> singleNext(n.syntaxBasicNode))
+//@ spec WFsingleDef(n *syntaxChildSingleIdentifier) bool = n != nil && height(n) == hgt(n.syntaxBasicNode) && WFbasic(n.syntaxBasicNode) && errRT(n.syntaxBasicNode) && (chainSingle(n) ==> singleNext(n.syntaxBasicNode))
+//@ spec WFwildcardDef(n *syntaxChildWildcardIdentifier) bool = n != nil && height(n) == hgt(n.syntaxBasicNode) && WFbasic(n.syntaxBasicNode) && errRT(n.syntaxBasicNode) && !chainSingle(n)
+//@ spec WFunionDef(n *syntaxUnionQualifier) bool = n != nil && height(n) == hgt(n.syntaxBasicNode) && WFunionAt(n) && (chainSingle(n) ==> singleNext(n.syntaxBasicNode) && len(n.subscripts) == 1 && isType(elemAt(n.subscripts, off(n.subscripts)), *syntaxIndexSubscript))
+//@ spec WFmultiDef(n *syntaxChildMultiIdentifier) bool = n != nil && height(n) == hgt(n.syntaxBasicNode) && WFbasic(n.syntaxBasicNode) && errRT(n.syntaxBasicNode) && wf(n.identifiers) && (arr(n.identifiers) == 0 || RO(n.identifiers)) && (forall k {elemAt(n.identifiers, k)} :: off(n.identifiers) <= k && k < off(n.identifiers) + len(n.identifiers) ==> elemAt(n.identifiers, k) != nil && WFnode(elemAt(n.identifiers, k)) && height(elemAt(n.identifiers, k)) < height(n) && (isType(elemAt(n.identifiers, k), *syntaxChildSingleIdentifier) ==> asType(elemAt(n.identifiers, k), *syntaxChildSingleIdentifier) != nil)) && (n.isAllWildcard ==> WFunionAt(n.unionQualifier) && WFnode(n.unionQualifier) && height(n.unionQualifier) < height(n)) && !chainSingle(n)
+//@ spec WFrecursiveDef(n *syntaxRecursiveChildIdentifier) bool = n != nil && height(n) == hgt(n.syntaxBasicNode) && WFbasic(n.syntaxBasicNode) && errRT(n.syntaxBasicNode) && n.syntaxBasicNode.next != nil && !chainSingle(n)
+//@ spec WFfilterDef(n *syntaxFilterQualifier) bool = n != nil && height(n) == hgt(n.syntaxBasicNode) && WFbasic(n.syntaxBasicNode) && errRT(n.syntaxBasicNode) && n.query != nil && WFquery(n.query) && 0 <= qheight(n.query) && qheight(n.query) < height(n) && !chainSingle(n)
+//@ spec WFffuncDef(n *syntaxFilterFunction) bool = n != nil && height(n) == hgt(n.syntaxBasicNode) && WFbasic(n.syntaxBasicNode) && errRT(n.syntaxBasicNode) && n.function != nil && (chainSingle(n) ==> singleNext(n.syntaxBasicNode))
+//@ spec WFafuncDef(n *syntaxAggregateFunction) bool = n != nil && height(n) == hgt(n.syntaxBasicNode) && WFbasic(n.syntaxBasicNode) && errRT(n.syntaxBasicNode) && n.function != nil && n.param != nil && WFnode(n.param) && height(n.param) < height(n) && (chainSingle(n) ==> singleNext(n.syntaxBasicNode))
 
 // WF of subscripts
 //@ spec WFindexDef(n *syntaxIndexSubscript) bool = n != nil
@@ -225,6 +227,7 @@ package jsonpath
 //@ interface syntaxNode.retrieve
 //@   requires WFnode(this) && extVal(current)
 //@   include retrieveFrame
+//@   ensures single: chainSingle(this) ==> len(container.result) <= old(len(container.result)) + 1
 //@   decreases 3*height(this) + 2
 
 //@ interface syntaxNode.isValueGroup
@@ -248,18 +251,21 @@ package jsonpath
 //@   decreases 3*hgt(i)
 //@   requires WFbasic(i) && extVal(nextSrc)
 //@   include retrieveFrame
+//@   ensures single: singleNext(i) ==> len(container.result) <= old(len(container.result)) + 1
 
 //@ func (*syntaxBasicNode).retrieveMapNext
 //@   props C03 C04 C05 C06 C20
 //@   decreases 3*hgt(i)
 //@   requires WFbasic(i) && errRT(i)
 //@   include retrieveFrame
+//@   ensures single: singleNext(i) ==> len(container.result) <= old(len(container.result)) + 1
 
 //@ func (*syntaxBasicNode).retrieveListNext
 //@   props C03 C04 C05 C06 C20
 //@   decreases 3*hgt(i)
 //@   requires WFbasic(i) && 0 <= index && index < len(currentList) && RO(currentList)
 //@   include retrieveFrame
+//@   ensures single: singleNext(i) ==> len(container.result) <= old(len(container.result)) + 1
 
 //@ func (*syntaxBasicNode).addDeepestError
 //@   props C03 C15 C20
@@ -303,6 +309,7 @@ package jsonpath
 
 //@ interface syntaxSubscript.getIndexes
 //@   requires WFsub(this) && srcLength >= 0
+//@   ensures atmostone: isType(this, *syntaxIndexSubscript) ==> len(ret) <= 1
 //@   ensures inrange: forall k {elemAt(ret, k)} :: off(ret) <= k && k < off(ret) + len(ret) ==> 0 <= elemAt(ret, k) && elemAt(ret, k) < srcLength
 //@   ensures fresh: fresh(ret) && wf(ret)
 
@@ -342,6 +349,8 @@ package jsonpath
 //@   implements syntaxNode.retrieve
 //@   unfold WFnode(this) ==> WFunionDef(u)
 //@   loop 1 invariant bufInv(container) && errInv(deepestTextLen, deepestError)
+//@   loop 1 invariant single: chainSingle(this) ==> len(container.result) <= old(len(container.result)) + rangeindex1 + 1
+//@   loop 2 invariant single: chainSingle(this) ==> len(container.result) <= old(len(container.result)) + rangeindex1 + 1 + rangeindex2 + 1 && len(rangeslice2) <= 1
 //@   loop 2 invariant bufInv(container) && errInv(deepestTextLen, deepestError) && wf(rangeslice2) && mine(rangeslice2) && arr(rangeslice2) != arr(container.result) && (forall k {elemAt(rangeslice2, k)} :: off(rangeslice2) <= k && k < off(rangeslice2) + len(rangeslice2) ==> 0 <= elemAt(rangeslice2, k) && elemAt(rangeslice2, k) < len(srcArray))
 
 //@ func (*syntaxRecursiveChildIdentifier).retrieve
@@ -385,15 +394,16 @@ package jsonpath
 //@ spec WFprootDef(n *syntaxQueryParamRoot) bool = n != nil && n.param != nil && WFnode(n.param) && 0 <= height(n.param) && height(n.param) < qheight(n) && (paramSingleQ(n) ==> chainSingle(n.param))
 //@ spec WFpcurDef(n *syntaxQueryParamCurrentRoot) bool = n != nil && n.param != nil && WFnode(n.param) && 0 <= height(n.param) && height(n.param) < qheight(n)
 
-//@ spec WFdirectDef(c *syntaxCompareDirectEQ) bool = c != nil && c.syntaxTypeValidator != nil && WFval(c.syntaxTypeValidator) && vkind(c) == vkind(c.syntaxTypeValidator) && 1 <= vkind(c) && vkind(c) <= 4
-//@ spec WFdeepDef(c *syntaxCompareDeepEQ) bool = c != nil && vkind(c) == 0 && WFval(c.syntaxBasicAnyValueTypeValidator)
-//@ spec WFgeDef(c *syntaxCompareGE) bool = c != nil && vkind(c) == 1 && WFval(c.syntaxBasicNumericTypeValidator)
-//@ spec WFgtDef(c *syntaxCompareGT) bool = c != nil && vkind(c) == 1 && WFval(c.syntaxBasicNumericTypeValidator)
-//@ spec WFleDef(c *syntaxCompareLE) bool = c != nil && vkind(c) == 1 && WFval(c.syntaxBasicNumericTypeValidator)
-//@ spec WFltDef(c *syntaxCompareLT) bool = c != nil && vkind(c) == 1 && WFval(c.syntaxBasicNumericTypeValidator)
-//@ spec WFregexDef(c *syntaxCompareRegex) bool = c != nil && vkind(c) == 3 && c.regex != nil && WFval(c.syntaxBasicStringTypeValidator)
+//@ spec WFdirectDef(c *syntaxCompareDirectEQ) bool = c != nil && c.syntaxTypeValidator != nil && WFval(c.syntaxTypeValidator) && vkind(c) == vkind(c.syntaxTypeValidator) && 1 <= vkind(c) && vkind(c) <= 4 && 0 <= vrank(c.syntaxTypeValidator) && vrank(c.syntaxTypeValidator) < vrank(c)
+//@ spec WFdeepDef(c *syntaxCompareDeepEQ) bool = c != nil && vkind(c) == 0 && WFval(c.syntaxBasicAnyValueTypeValidator) && vkind(c.syntaxBasicAnyValueTypeValidator) == 0
+//@ spec WFgeDef(c *syntaxCompareGE) bool = c != nil && vkind(c) == 1 && WFval(c.syntaxBasicNumericTypeValidator) && vkind(c.syntaxBasicNumericTypeValidator) == 1
+//@ spec WFgtDef(c *syntaxCompareGT) bool = c != nil && vkind(c) == 1 && WFval(c.syntaxBasicNumericTypeValidator) && vkind(c.syntaxBasicNumericTypeValidator) == 1
+//@ spec WFleDef(c *syntaxCompareLE) bool = c != nil && vkind(c) == 1 && WFval(c.syntaxBasicNumericTypeValidator) && vkind(c.syntaxBasicNumericTypeValidator) == 1
+//@ spec WFltDef(c *syntaxCompareLT) bool = c != nil && vkind(c) == 1 && WFval(c.syntaxBasicNumericTypeValidator) && vkind(c.syntaxBasicNumericTypeValidator) == 1
+//@ spec WFregexDef(c *syntaxCompareRegex) bool = c != nil && vkind(c) == 3 && c.regex != nil && WFval(c.syntaxBasicStringTypeValidator) && vkind(c.syntaxBasicStringTypeValidator) == 3
 
 //@ extern (json.Number).Float64
+//@   ensures ret0 == numToF(n)
 //@   pure
 //@ extern reflect.DeepEqual
 //@   pure
@@ -401,7 +411,7 @@ package jsonpath
 //@   pure
 
 //@ template computeFrame
-//@   requires extVal(root) && wf(currentList) && extStack(currentList)
+//@   requires extVal(root) && wf(currentList) && extStack(currentList) && (arr(currentList) == 0 || mine(currentList) || RO(currentList))
 //@   ensures shape: (len(ret) == 1 || len(ret) == len(currentList)) && wf(ret)
 //@   ensures owner: fresh(ret) || ret == emptyList || ret == fullList
 
@@ -412,21 +422,31 @@ package jsonpath
 //@   ensures one: (isType(this, *syntaxQueryParamLiteral) || isType(this, *syntaxQueryParamRoot)) ==> len(ret) == 1
 //@   decreases 3*qheight(this) + 2
 
+//@ spec isKind(k int, v any) bool = v != emptyEntity && (k == 0 || (k == 1 && (isType(v, float64) || isType(v, json.Number))) || (k == 2 && isType(v, bool)) || (k == 3 && isType(v, string)) || (k == 4 && v == nil))
+//@ spec convSlot(k int, v any) any = !isKind(k, v) ? emptyEntity : ((k == 1 && isType(v, json.Number)) ? numToF(asType(v, json.Number)) : v)
+//@ spec cleanList(k int, s []interface{}) bool = forall i {elemAt(s, i)} :: off(s) <= i && i < off(s) + len(s) ==> convSlot(k, elemAt(s, i)) == elemAt(s, i)
+// loop invariants shared by the four validators (r = the hidden range counter)
+//@ spec valDone(k int, values []interface{}, r int) bool = forall i {old(elemAt(values, i))} :: off(values) <= i && i <= off(values) + r ==> elemAt(values, i) == convSlot(k, old(elemAt(values, i)))
+//@ spec valTodo(values []interface{}, r int) bool = forall i {old(elemAt(values, i))} :: off(values) + r < i && i < off(values) + len(values) ==> elemAt(values, i) == old(elemAt(values, i))
+//@ spec valFound(k int, values []interface{}, r int) bool = exists i :: off(values) <= i && i <= off(values) + r && isKind(k, old(elemAt(values, i)))
+
 //@ template validateFrame
 //@   requires wf(values)
 //@   modifies elems(values)
-//@   ensures none: !ret ==> allEmpty(values)
-//@   ensures some: ret ==> !allEmpty(values)
 
 //@ interface syntaxComparator.validate
-//@   requires WFcmp(this) && (mine(values) || typedList(vkind(this), values))
+//@   requires WFcmp(this) && (mine(values) || cleanList(vkind(this), values))
 //@   include validateFrame
-//@   ensures typed: typedList(vkind(this), values)
+//@   ensures conv: forall i {old(elemAt(values, i))} :: off(values) <= i && i < off(values) + len(values) ==> elemAt(values, i) == convSlot(vkind(this), old(elemAt(values, i)))
+//@   ensures found: ret <==> valFound(vkind(this), values, len(values) - 1)
+//@   decreases vrank(this)
 
 //@ interface syntaxTypeValidator.validate
-//@   requires WFval(this) && (mine(values) || typedList(vkind(this), values))
+//@   requires WFval(this) && (mine(values) || cleanList(vkind(this), values))
 //@   include validateFrame
-//@   ensures typed: typedList(vkind(this), values)
+//@   ensures conv: forall i {old(elemAt(values, i))} :: off(values) <= i && i < off(values) + len(values) ==> elemAt(values, i) == convSlot(vkind(this), old(elemAt(values, i)))
+//@   ensures found: ret <==> valFound(vkind(this), values, len(values) - 1)
+//@   decreases vrank(this)
 
 //@ interface syntaxComparator.comparator
 //@   requires WFcmp(this) && wf(left) && mine(left) && typedList(vkind(this), left) && okSlot(vkind(this), right) && right != emptyEntity
@@ -436,43 +456,43 @@ package jsonpath
 //@   props C03 C04 C05 C06 C10 C20
 //@   implements syntaxTypeValidator.validate
 //@   unfold WFval(this) ==> vkind(this) == 0
-//@   loop 1 invariant forall i {elemAt(values, i)} :: off(values) <= i && i <= off(values) + rangeindex ==> elemAt(values, i) == emptyEntity
+//@   loop 1 invariant !valFound(0, values, rangeindex)
 
 //@ func (*syntaxBasicNumericTypeValidator).validate
 //@   props C03 C04 C05 C06 C10 C20
 //@   implements syntaxTypeValidator.validate
 //@   unfold WFval(this) ==> vkind(this) == 1
-//@   loop 1 invariant mine(values) || typedList(1, values)
-//@   loop 1 invariant forall i {elemAt(values, i)} :: off(values) <= i && i <= off(values) + rangeindex ==> okSlot(1, elemAt(values, i))
-//@   loop 1 invariant !foundValue ==> (forall i {elemAt(values, i)} :: off(values) <= i && i <= off(values) + rangeindex ==> elemAt(values, i) == emptyEntity)
-//@   loop 1 invariant foundValue ==> (exists i :: off(values) <= i && i <= off(values) + rangeindex && elemAt(values, i) != emptyEntity)
+//@   loop 1 invariant own: mine(values) || cleanList(1, values)
+//@   loop 1 invariant done: valDone(1, values, rangeindex)
+//@   loop 1 invariant todo: valTodo(values, rangeindex)
+//@   loop 1 invariant found: foundValue <==> valFound(1, values, rangeindex)
 
 //@ func (*syntaxBasicBoolTypeValidator).validate
 //@   props C03 C04 C05 C06 C10 C20
 //@   implements syntaxTypeValidator.validate
 //@   unfold WFval(this) ==> vkind(this) == 2
-//@   loop 1 invariant mine(values) || typedList(2, values)
-//@   loop 1 invariant forall i {elemAt(values, i)} :: off(values) <= i && i <= off(values) + rangeindex ==> okSlot(2, elemAt(values, i))
-//@   loop 1 invariant !foundValue ==> (forall i {elemAt(values, i)} :: off(values) <= i && i <= off(values) + rangeindex ==> elemAt(values, i) == emptyEntity)
-//@   loop 1 invariant foundValue ==> (exists i :: off(values) <= i && i <= off(values) + rangeindex && elemAt(values, i) != emptyEntity)
+//@   loop 1 invariant own: mine(values) || cleanList(2, values)
+//@   loop 1 invariant done: valDone(2, values, rangeindex)
+//@   loop 1 invariant todo: valTodo(values, rangeindex)
+//@   loop 1 invariant found: foundValue <==> valFound(2, values, rangeindex)
 
 //@ func (*syntaxBasicStringTypeValidator).validate
 //@   props C03 C04 C05 C06 C10 C20
 //@   implements syntaxTypeValidator.validate
 //@   unfold WFval(this) ==> vkind(this) == 3
-//@   loop 1 invariant mine(values) || typedList(3, values)
-//@   loop 1 invariant forall i {elemAt(values, i)} :: off(values) <= i && i <= off(values) + rangeindex ==> okSlot(3, elemAt(values, i))
-//@   loop 1 invariant !foundValue ==> (forall i {elemAt(values, i)} :: off(values) <= i && i <= off(values) + rangeindex ==> elemAt(values, i) == emptyEntity)
-//@   loop 1 invariant foundValue ==> (exists i :: off(values) <= i && i <= off(values) + rangeindex && elemAt(values, i) != emptyEntity)
+//@   loop 1 invariant own: mine(values) || cleanList(3, values)
+//@   loop 1 invariant done: valDone(3, values, rangeindex)
+//@   loop 1 invariant todo: valTodo(values, rangeindex)
+//@   loop 1 invariant found: foundValue <==> valFound(3, values, rangeindex)
 
 //@ func (*syntaxBasicNilTypeValidator).validate
 //@   props C03 C04 C05 C06 C10 C20
 //@   implements syntaxTypeValidator.validate
 //@   unfold WFval(this) ==> vkind(this) == 4
-//@   loop 1 invariant mine(values) || typedList(4, values)
-//@   loop 1 invariant forall i {elemAt(values, i)} :: off(values) <= i && i <= off(values) + rangeindex ==> okSlot(4, elemAt(values, i))
-//@   loop 1 invariant !foundValue ==> (forall i {elemAt(values, i)} :: off(values) <= i && i <= off(values) + rangeindex ==> elemAt(values, i) == emptyEntity)
-//@   loop 1 invariant foundValue ==> (exists i :: off(values) <= i && i <= off(values) + rangeindex && elemAt(values, i) != emptyEntity)
+//@   loop 1 invariant own: mine(values) || cleanList(4, values)
+//@   loop 1 invariant done: valDone(4, values, rangeindex)
+//@   loop 1 invariant todo: valTodo(values, rangeindex)
+//@   loop 1 invariant found: foundValue <==> valFound(4, values, rangeindex)
 
 // promoted validate methods of the comparators (synthesised wrappers, verified like any function)
 //@ func (*syntaxCompareDirectEQ).validate
